@@ -126,7 +126,8 @@ def _zupdate(variant, lam_kind, lam_expr, extra_pre, schema):
              requires=["args.rho > 0", "args.window_size >= 1", "args.num_data_series >= 1",
                        "args.window_size * args.num_data_series < 67108864", "u.shape[0] == x.shape[0]",
                        "2*x.shape[0] == args.window_size*args.num_data_series*(args.window_size*args.num_data_series + 1)"] + extra_pre,
-             ghost={'returns': dict(theta_plus_u='theta_plus_u', block_size='block_size', num_blocks='num_blocks'),
+             ghost={'reveal': ['tri_rank', 'cidx'],
+                    'returns': dict(theta_plus_u='theta_plus_u', block_size='block_size', num_blocks='num_blocks'),
                     'return_kinds': dict(theta_plus_u='arr1[real]', block_size='int', num_blocks='int'),
                     'schema': schema},
              axioms=[("toeplitz-class-positions-are-pairwise-distinct", _INJ.replace('block_size', 'args.num_data_series').replace('num_blocks', 'args.window_size'))],
@@ -197,7 +198,7 @@ contract(SV + 'run_admm_optimization', props=['C02', 'C19'],
          params=dict(args='obj:ADMMArguments', empirical_covariance='arr2[real]'), returns='arr1[real]',
          requires=_ARGS_OK + ["empirical_covariance.shape[0] == " + _NW, "empirical_covariance.shape[1] == " + _NW],
          assigns=['args.rho'],
-         ghost={'kind:z_old': 'arr1[real]',
+         ghost={'kind:z_old': 'arr1[real]', 'reveal': ['tri_rank', 'cidx'],
                 'returns': dict(X='x', Z='z', U='u', ZO='z_old', stopped='stopped', rounds='rounds', UP='uprev',
                                 TPU='ghost_admm_update_z_theta_plus_u'),
                 'return_kinds': dict(X='arr1[real]', Z='arr1[real]', U='arr1[real]', ZO='arr1[real]', stopped='bool', rounds='int',
